@@ -42,6 +42,7 @@ ASSUMPTIONS = [
     "alone-runs execute in separate forked children so that a shared module/class-level cache cannot pollute the oracle",
 ]
 
+NODE_LIMIT = 6000
 INTER_TIMEOUT = 20.0
 ITER_OPS = ("exhaust", "take_close", "take_drop", "take_cycle")
 WHOLE_OPS = ("is_valid", "validate", "tree", "best_match", "consumer_raises")
@@ -238,8 +239,22 @@ class Stepper(object):
         self.task = None
         self.phase = None
         self.pc += 1
+        if getattr(a, "nodes", 0) > NODE_LIMIT and self.pc < len(self.program):
+            # an exponential error tree (thousands of nested oneOf/anyOf errors): the rest of this actor's
+            # program is dropped - the same way alone and interleaved, the count is per actor and deterministic
+            a.probe("program_cut_short_heavy_error_trees")
+            self.program = self.program[:self.pc]
 
     def step(self):
+        from dsim import canon
+        a = self.actor
+        canon.set_nodes(getattr(a, "nodes", 0))
+        try:
+            return self._step()
+        finally:
+            a.nodes = canon.nodes()
+
+    def _step(self):
         """One micro-step.  Returns a label for the schedule trace."""
         import gc
         from dsim.sim import IterTask, do_op
